@@ -103,8 +103,15 @@ def run(name, checks):
             if ap.returncode:
                 print(name, "PATCH DOES NOT APPLY", ap.stderr[:200])
                 return
-        results = {}
         rp = os.path.join(sd, "result.json")
+        # a change written against an earlier commit may have been neutralised by a later repair of
+        # /repo: it only counts if its own demonstration still fails on the tree it is applied to
+        demo = sh(f"{PY} {sd}/demo.py", env=dict(os.environ, PYTHONPATH=f"{d}/src"), cwd="/dev/shm")
+        if demo.returncode == 0:
+            print(f"{name}: demonstration passes on {base}+patch -> change no longer breaks the property (neutralised by a later repair); not run")
+            json.dump({"seeded": name, "property": meta["property"], "applied_on": base, "obsolete": True, "checks": {}}, open(rp, "w"), indent=1)
+            return
+        results = {}
         if os.path.exists(rp):
             results = json.load(open(rp)).get("checks", {})
         for c in checks:
@@ -126,6 +133,9 @@ def table():
     rows = []
     for rp in sorted(glob.glob(os.path.join(VERIF, "seeded", "*", "result.json"))):
         r = json.load(open(rp))
+        if r.get("obsolete"):
+            rows.append(f"| {r['seeded']} | {r['property']} | obsolete: demonstration no longer fails on the repaired tree | | |")
+            continue
         own = r["checks"].get(r["property"], {})
         others = [c for c, v in r["checks"].items() if c != r["property"] and v["exit"] == 1]
         rows.append(f"| {r['seeded']} | {r['property']} | {'caught' if own.get('exit') == 1 else 'MISSED' if own else 'n/a'} "
